@@ -2,9 +2,17 @@
 import signal
 import time
 
-from lib import coq_list as L
+from lib import coq_list
 
-THEOREMS = ['C01_predictions_spec', 'C01_chart_is_language', 'C01_alg_sound', 'C01_alg_complete', 'C01_basic_trace',
+
+def L(items, ty=None):
+    """Coq list literal; an empty list carries its element type (the generated cases have no type annotation)"""
+    items = list(items)
+    if not items and ty:
+        return '(@nil %s)' % ty
+    return coq_list(items)
+
+THEOREMS = ['C01_predictions_spec', 'C01_nullable_spec', 'C01_chart_is_language', 'C01_alg_sound', 'C01_alg_complete', 'C01_basic_trace',
             'C01_fuel_suffices', 'C01_basic', 'C01_general', 'C01_example']
 GEN_DEPS = []
 RULE = ('random CFGs (<=5 non-terminals, <=4 single-character terminals, <=3 alternatives of length <=3; nullable '
@@ -247,10 +255,16 @@ class Compiled:
         # single-character string terminals: char -> terminal id (None when the terminal is not used by a rule)
         self.char_tid = {}
         self.single_char = True
+        self.ignored_chars = set()
         for t in lark.terminals:
             pat = t.pattern
             if type(pat).__name__ == 'PatternStr' and len(pat.value) == 1 and not pat.flags:
-                self.char_tid[pat.value] = self.tid.get(t.name)
+                if t.name in lark.ignore_tokens:
+                    self.ignored_chars.add(pat.value)
+                    if t.name in self.tid:
+                        self.single_char = False     # an ignored terminal used by a rule: outside the modelled class
+                else:
+                    self.char_tid[pat.value] = self.tid.get(t.name)
             else:
                 self.single_char = False
 
@@ -261,7 +275,7 @@ class Compiled:
         return k
 
     def coq_rules(self):
-        return L(['(%d, %s)' % (lhs, L(['%s %d' % ('T' if k == 'T' else 'NT', s) for k, s in rhs]))
+        return L(['(%d, %s)' % (lhs, L(['%s %d' % ('T' if k == 'T' else 'NT', s) for k, s in rhs], 'symbol'))
                   for lhs, rhs in self.abs_rules])
 
 
@@ -280,7 +294,7 @@ def build(grammar, lexer, ambiguity, timeout=10.0):
         return 'error', '%s: %s' % (type(e).__name__, str(e)[:200])
 
 
-def run_parse(lark, text, timeout=10.0):
+def run_parse(lark, text, timeout=3.0):
     """-> (status, position, trace): status in accept / UnexpectedEOF / UnexpectedToken / UnexpectedCharacters /
     hang / other:<class>"""
     from lark.exceptions import UnexpectedEOF, UnexpectedToken, UnexpectedCharacters, UnexpectedInput
@@ -321,7 +335,7 @@ def coq_sets(cols):
         for (r, p, st) in c:
             if p >= 64 or st >= 64:
                 raise ValueError('item outside the packed range')
-    return '(' + L([L(['%d' % ((r * 64 + p) * 64 + st) for (r, p, st) in c]) for c in cols]) + ')%N'
+    return '(' + L([L(['%d' % ((r * 64 + p) * 64 + st) for (r, p, st) in c], 'N') for c in cols], '(list N)') + ')%N'
 
 
 def expected_observation(lexer, status, ncols, toks, bad_at):
@@ -394,7 +408,21 @@ def gen_inputs(rng, comp, alphabet, n_exh, n_extra):
     return out
 
 
-def check_grammar(ctx, rng, gtext, stream, cases, meta, seen_terms, n_exh, n_extra, lexers=LEXERS, exp_build=None):
+def spaced(rng, text):
+    out = []
+    for ch in text:
+        if rng.random() < 0.3:
+            out.append(' ' * rng.randint(1, 2))
+        out.append(ch)
+    if rng.random() < 0.4:
+        out.append(' ')
+    return ''.join(out)
+
+
+def check_grammar(ctx, rng, gtext, stream, cases, meta, seen_terms, n_exh, n_extra, lexers=LEXERS, exp_build=None,
+                  ignore=False):
+    if ignore:
+        gtext += '%ignore " "\n'
     ambiguity = rng.choice([None, 'forest', 'forest', 'explicit'])
     comps = {}
     for lexer in lexers:
@@ -442,15 +470,20 @@ def check_grammar(ctx, rng, gtext, stream, cases, meta, seen_terms, n_exh, n_ext
             meta['pred'].append({'grammar': gtext, 'nt': nt.name})
             ctx.count(stream + ':predictions', key=term, nontrivial=len(rl) > 1)
         nulls = sorted(comp0.ntid[s.name] for s in p.NULLABLE if not s.is_term and s.name in comp0.ntid)
-        cases['null'].append('(%s, %s)' % (comp0.coq_rules(), L(['%d' % a for a in nulls])))
+        cases['null'].append('(%s, %s)' % (comp0.coq_rules(), L(['%d' % a for a in nulls], 'nat')))
         meta['null'].append({'grammar': gtext})
     alphabet = sorted(c for c, t in comp0.char_tid.items() if t is not None) or ['x']
     inputs = gen_inputs(rng, comp0, alphabet, n_exh, n_extra)
+    if ignore:
+        inputs = [(spaced(rng, t), why) for t, why in inputs] + [(' ', 'exhaustive')]
     crules = comp0.coq_rules()
     group_terms, group_meta, group_seen = [], [], set()
+    local_hangs = 0
     for text, why in inputs:
+        if local_hangs >= 2 or ctx.extra.get('hangs', 0) >= 8:
+            break       # a hanging implementation: enough witnesses, do not burn the time budget
         toks, bad_at = [], None
-        for k, ch in enumerate(text):
+        for k, ch in enumerate(c for c in text if c not in comp0.ignored_chars):
             t = comp0.char_tid.get(ch)
             if t is None:
                 t = 9
@@ -474,6 +507,10 @@ def check_grammar(ctx, rng, gtext, stream, cases, meta, seen_terms, n_exh, n_ext
                       input_kind=why)
             if status == 'hang':
                 ctx.violation('hang', w, True, 'parse did not terminate within the timeout')
+                ctx.extra['hangs'] = ctx.extra.get('hangs', 0) + 1
+                local_hangs += 1
+                if local_hangs >= 2:
+                    break
                 continue
             if status.startswith('other:') or status.startswith('UnexpectedInput:'):
                 ctx.violation('exception-class', w, True,
@@ -484,6 +521,8 @@ def check_grammar(ctx, rng, gtext, stream, cases, meta, seen_terms, n_exh, n_ext
                               '%s %r although the grammar %s it' % ('accepted' if got else 'rejected (%s)' % status, text,
                                                                     'does not derive' if got else 'derives'))
                 continue
+            if ignore and lexer != 'basic':
+                continue      # %ignore carry-over of xearley is not modelled: acceptance only
             eo = expected_observation(lexer, status, ncols, toks, bad_at)
             if tr is None or eo is None:
                 ctx.violation('correspondence:observation-shape',
@@ -491,11 +530,11 @@ def check_grammar(ctx, rng, gtext, stream, cases, meta, seen_terms, n_exh, n_ext
                               'unexpected call sequence or exception class %s for lexer %s' % (status, lexer))
                 continue
             code, drop = eo
-            if code >= 2 and pos is not None and pos != code - 2:
+            if code >= 2 and pos is not None and pos != code - 2 and not ignore:
                 ctx.violation('correspondence:error-position',
                               {'no_longer_checks': 'error position = index of the token the scanner rejected', **w},
                               False, 'error position %s, the scanner rejected token %d' % (pos, code - 2))
-            term = '(%s, %d, %d, %s, %s)' % (L(['%d' % t for t in toks]), code, drop, coq_sets(tr[0]), coq_sets(tr[1]))
+            term = '(%s, %d, %d, %s, %s)' % (L(['%d' % t for t in toks], 'nat'), code, drop, coq_sets(tr[0]), coq_sets(tr[1]))
             if term not in group_seen:
                 group_seen.add(term)
                 group_terms.append(term)
@@ -555,6 +594,27 @@ def run_coq(ctx, cases, meta):
                           'model and implementation differ (%s) on grammar %r' % (kind, w.get('grammar')))
 
 
+# fixed corpus: nullable chains needing held completions, hidden left recursion, unit cycles, ambiguity
+CORPUS = [
+    'start: a a\na: b b\nb: \n',
+    'start: a start | \na: | "x"\n',
+    'start: start start | "x" | \n',
+    'start: a\na: b\nb: a | "x"\n',
+    'start: a "x"\na: a "y" | \n',
+    'start: "x" start "x" | "x"\n',
+    'start: a b a\na: b | "x"\nb: a | \n',
+    'start: a\na: a a | b\nb: "x" | c\nc: | "y" a\n',
+    'start: b "x"\nb: c c c\nc: d d\nd: | "y"\n',
+    'start: a "x" | a "y"\na: a "x" | a "y" | "x"\n',
+]
+CORPUS_EBNF = [
+    'start: a b c\na: "x"?\nb: "y"?\nc: "z"?\n',
+    'start: ("x" | "y")* "x"\n',
+    'start: ["x"] ["x"]\n',                       # colliding optionals: the documented GrammarError
+    'start: a+ b*\na: "x" | \nb: "y" a\n',
+    'start: "x"~2..3 "y"\n',
+]
+
 EXOTIC = [
     # (key, grammar, text, lexers, terminal regexps for the oracle)
     (F7_KEY, 'start: X "b"\nX: /a|ab/\n', 'abb', ('dynamic', 'dynamic_complete')),
@@ -612,9 +672,14 @@ def correspond(ctx):
     meta = {'earley': [], 'pred': [], 'null': []}
     seen = set()
     t0 = time.time()
-    n_cfg = ctx.scale(110, 1500) * wide
-    n_ebnf = ctx.scale(25, 300) * wide
-    n_exh, n_extra = ctx.scale(24, 60), ctx.scale(8, 20)
+    n_cfg = ctx.scale(60, 900) * wide
+    n_ebnf = ctx.scale(12, 150) * wide
+    n_ign = ctx.scale(10, 100) * wide
+    n_exh, n_extra = ctx.scale(24, 50), ctx.scale(8, 16)
+    for gtext in CORPUS:
+        check_grammar(ctx, rng, gtext, 'cfg', cases, meta, seen, n_exh * 2, n_extra)
+    for gtext in CORPUS_EBNF:
+        check_grammar(ctx, rng, gtext, 'ebnf', cases, meta, seen, n_exh * 2, n_extra, exp_build='maybe-GrammarError')
     for _ in range(n_cfg):
         names, chars, g = gen_cfg(rng)
         check_grammar(ctx, rng, render(rng, names, chars, g), 'cfg', cases, meta, seen, n_exh, n_extra)
@@ -622,6 +687,10 @@ def correspond(ctx):
         names, chars, g = gen_cfg(rng, ebnf=True)
         check_grammar(ctx, rng, render(rng, names, chars, g), 'ebnf', cases, meta, seen, n_exh, n_extra,
                       exp_build='maybe-GrammarError')
+    for _ in range(n_ign):
+        names, chars, g = gen_cfg(rng)
+        check_grammar(ctx, rng, render(rng, names, chars, g), 'ignore', cases, meta, seen, n_exh // 2, n_extra,
+                      ignore=True)
     ctx.extra['lark_seconds'] = round(time.time() - t0, 1)
     run_exotic(ctx)
     t1 = time.time()
